@@ -346,6 +346,10 @@ def malformed(ins):
             out.append(ins[:i] + [p] + ins[i:])
             if i < len(ins):
                 out.append(ins[:i] + [p] + ins[i + 1:])
+    # a fused *VERIFY opcode written as two opcodes (same execution, different bytes)
+    for i, x in enumerate(ins):
+        if x[0] == "op" and x[1] in (0x88, 0xad, 0xaf, 0x9d):
+            out.append(ins[:i] + [("op", x[1] - 1), ("op", 0x69)] + ins[i + 1:])
     out.append([])
     return out
 
@@ -358,24 +362,100 @@ def _mal_work(args):
     ast = X.parse(text)
     ins = instructions(X.script(ast, ctx))
     out = []
+    noncanon = []
     n = 0
     accepted = 0
     muts = malformed(ins)
     if tier == "quick":
-        muts = muts[::3]
+        # always: deletions, duplications, swaps, VERIFY / 0 / 1 insertions and replacements, number pushes; the bulk of
+        # arbitrary opcode / payload insertions is sampled
+        base = repr(ins)
+
+        def core(mi):
+            if len(mi) <= len(ins) and all(x in ins for x in mi):
+                return True
+            new = [x for x in mi if x not in ins]
+            if len(new) == 2 and new[1] == ("op", 0x69):
+                return True
+            return all((x[0] == "op" and x[1] in (0x69, 0x00, 0x51)) or (x[0] == "push" and isinstance(x[1], PyVec)) for x in new)
+        keep = [mi for mi in muts if core(mi)]
+        rest = [mi for mi in muts if not core(mi)]
+        muts = keep + rest[::4]
     for mi in muts:
         try:
             n += 1
             r = D.decode(mi, ctx)
             if isinstance(r, Adt) and r.variant == "Ok":
                 accepted += 1
+                back = to_node(norm(r.fields["0"]))
+                if back is None:
+                    noncanon.append((text, repr(mi)[:300], "accepted as %r, which has no specification script" % (norm(r.fields["0"]),)))
+                else:
+                    lens = dict((i[1].name, i[1].length) for i in mi if i[0] == "push" and isinstance(i[1], X.Tok) and i[1].kind == "key")
+                    re_enc = shape(instructions(X.script(back, ctx)), lens)
+                    if re_enc != shape(mi):
+                        noncanon.append((text, repr(mi)[:300], "accepted as %r whose script is %s" % (norm(r.fields["0"]), repr(re_enc)[:300])))
         except Panic as e:
             out.append((text, repr(mi)[:300], str(e)))
         except Unsupported as e:
-            return text, n, out, str(e), accepted
+            return text, n, out, str(e), accepted, noncanon
         except RecursionError:
             out.append((text, repr(mi)[:300], "evaluator recursion limit"))
-    return text, n, out, None, accepted
+    return text, n, out, None, accepted, noncanon
+
+
+NONCANON = {}
+_MUT = {}
+
+
+def mutation_results(tier):
+    import multiprocessing as mp
+    if tier not in _MUT:
+        jobs = [(t, c, tier) for (t, c) in family() if tier != "quick" or (t, c) not in BIG_SCRIPTS[2:]]
+        with mp.Pool(min(16, os.cpu_count() or 4)) as pool:
+            _MUT[tier] = pool.map(_mal_work, jobs, chunksize=1)
+    return _MUT[tier]
+
+
+def check_decoder_canonical(chk, F, R="R04.5"):
+    chk.rule(R, "the decoder never accepts a script that is not the canonical encoding of the miniscript it returns: every "
+                "single-instruction mutation (deletion, duplication, swap, opcode / push insertion and replacement incl. "
+                "non-minimal and zero numbers) of every family script that decodes successfully re-encodes, by the "
+                "specification's templates, to the very same instruction stream")
+    results = mutation_results(chk.tier)
+    accepted = 0
+    for text, n, out, unsup, acc, noncanon in results:
+        accepted += acc
+        if unsup:
+            chk.fail(R, "unanalysable:" + text, "unanalysable: %s" % unsup, kind="unanalysable")
+        elif noncanon:
+            chk.fail(R, text, "%d accepted mutant(s) are not canonical; first: %s %s" % (len(noncanon), noncanon[0][1], noncanon[0][2]),
+                     where="src/miniscript/decode.rs", detail=noncanon[:8])
+        else:
+            chk.ok(R)
+    chk.extra[R + "_accepted_mutants"] = accepted
+    chk.floor(R, "accepted mutants re-encoded", accepted, 300)
+
+
+def shape(ins, key_lens=None):
+    """an instruction list up to the identity of opaque payloads: opcodes, number pushes byte for byte, other pushes by
+    their length (payload bytes are copied by the decoder and the encoder, only their position and size matter here);
+    the empty push is OP_0"""
+    out = []
+    for i in ins:
+        if i[0] == "op":
+            out.append(("op", i[1]))
+        elif i[0] == "push":
+            v = i[1]
+            if isinstance(v, PyVec):
+                out.append(("op", 0) if not v.items else ("num", tuple(v.items)))
+            elif key_lens and getattr(v, "kind", None) == "key" and v.name in key_lens:
+                out.append(("push", key_lens[v.name]))   # the key as it was pushed (the normal form keeps only its name)
+            else:
+                out.append(("push", v.length))
+        else:
+            out.append(i)
+    return out
 
 
 def check_decoder_panics(chk, F, R="R11.6"):
@@ -384,12 +464,12 @@ def check_decoder_panics(chk, F, R="R11.6"):
                 "duplication, neighbour swap, opcode insertion / replacement and push insertion / replacement (keys of "
                 "the wrong kind, hashes, non-minimal / negative / oversized numbers, truncated script) of the script of "
                 "every miniscript of the family, plus every one- and two-instruction script over all opcodes")
-    jobs = [(t, c, chk.tier) for (t, c) in family() if chk.tier != "quick" or (t, c) not in BIG_SCRIPTS[2:]]
-    with mp.Pool(min(16, os.cpu_count() or 4)) as pool:
-        results = pool.map(_mal_work, jobs, chunksize=1)
+    results = mutation_results(chk.tier)
     total = 0
-    for text, n, out, unsup, accepted in results:
+    for text, n, out, unsup, accepted, noncanon in results:
         total += n
+        NONCANON.setdefault("all", []).extend(noncanon)
+        NONCANON["accepted"] = NONCANON.get("accepted", 0) + accepted
         if unsup:
             chk.fail(R, "unanalysable:" + text, "unanalysable: %s" % unsup, kind="unanalysable")
         elif out:
